@@ -328,6 +328,13 @@ func ruleDDispatch(p *Program, r *Reporter) {
 					bad = "the result of a let is not the value of its body"
 					break
 				}
+				// which bindings a let evaluates depends on the let alone: a path decided by a test of the current value
+				// (a null guard borrowed from the multi-selects) binds nothing where the let stands on null
+				for _, c := range pf.CurNil {
+					if bad == "" {
+						bad = "the bindings of a let depend on a test of the current value (" + c + "): a let that stands where the current value is null must still bind its variables"
+					}
+				}
 				for _, ev := range pf.Evals[:len(pf.Evals)-1] {
 					if !strings.HasPrefix(ev.Field, "Variables") {
 						bad = "a let evaluates " + ev.Field + " before its body"
